@@ -300,9 +300,11 @@ class Machine(object):
       with world.observed(), world.LineInterrupter() as li0:
         try:
           est2.fit(*a2, **k2)
-        except Exception:
+        except (Exception, world.LineInterrupter.StopCount):
           pass
       n = li0.n
+      if n >= world.LineInterrupter.CAP:
+        self.cov["crash_points_capped"] += 1
     except Exception:
       n = 0
     finally:
